@@ -178,7 +178,7 @@ Proof.
                   Permutation (all_ids x) (all_ids s)).
   { intros x E1 E2 E3. unfold all_ids. rewrite E1, E2, E3, Q. cbn [map fst app].
     rewrite !app_assoc. symmetry. apply Permutation_middle. }
-  assert (Admit : forall x, v_queue x = rest -> v_served x = id :: v_served s -> v_dropped x = v_dropped s ->
+  assert (TakeIn : forall x, v_queue x = rest -> v_served x = id :: v_served s -> v_dropped x = v_dropped s ->
                   Permutation (all_ids x) (all_ids s)).
   { intros x E1 E2 E3. unfold all_ids. rewrite E1, E2, E3, Q. cbn [map fst app].
     symmetry. apply Permutation_middle. }
@@ -192,8 +192,8 @@ Proof.
       cbn [fst snd v_queue v_served v_dropped] in E8, E9, E10.
       destruct k as [|k]; [apply Drop; cbn; congruence|].
       destruct (v_max s2 <=? v_nb s2); [apply Drop; cbn; congruence|].
-      rewrite IH. apply Admit; cbn; congruence.
-    + rewrite IH. apply Admit; reflexivity.
+      rewrite IH. apply TakeIn; cbn; congruence.
+    + rewrite IH. apply TakeIn; reflexivity.
 Qed.
 
 Lemma q_apply_ids s o :
